@@ -49,6 +49,8 @@ pub enum Mode {
     BuildRun,
     /// `incan --check`, then build and run
     CheckBuildRun,
+    /// `incan --check`, then build (the binary is not run)
+    CheckBuild,
 }
 
 #[derive(Clone, Debug, Default)]
@@ -256,7 +258,7 @@ impl Farm {
         let entry_dir = entry.parent().unwrap_or(&dir).to_path_buf();
         let entry_file = entry.file_name().unwrap().to_string_lossy().to_string();
 
-        if matches!(mode, Mode::Check | Mode::CheckBuildRun) {
+        if matches!(mode, Mode::Check | Mode::CheckBuildRun | Mode::CheckBuild) {
             let mut c = Command::new(&self.incan);
             c.arg("--check").arg(&entry_file).current_dir(&entry_dir);
             let r = run_cmd(c, self.build_timeout);
